@@ -1714,3 +1714,8 @@ mod tests {
         assert_eq!(mgr.get_end_index(), interval as u64);
     }
 }
+
+// verification hook (inert unless cfg(kani) or cfg(rnacos_verif)); see /verif/DESIGN.md
+#[cfg(any(kani, rnacos_verif))]
+#[path = "/verif/harness/c02_raftlog.rs"]
+pub(crate) mod verif_priv;
